@@ -9,7 +9,7 @@ Two workloads, one oracle:
 (a) real pipelines (``vlib.pyndriver.run_pipeline`` with ``master_worker: true``) with the repository's crash hook
     (``SE2P_PYNGUIN_VERIF_CRASH=<phase>:<n>``: the first n processes reaching <phase> die with ``os._exit(70)``) at each
     of the 9 phase boundaries x n in {1, 2, 99 (= always)} x three budget kinds: search time only (6 s), search time
-    plus an iteration cap (20 s / 2 iterations: the worker reaches the late phases while search time remains, so
+    plus an iteration cap (20 s, 120 s where the crash count is finite / 2 iterations: the worker reaches the late phases while search time remains, so
     deaths in assertions / minimize / export / done are restartable), iterations only (maximum_search_time = -1).
 (b) scripted fault sequences on the real master: a child of this file (``--scripted spec out``) replaces
     ``pynguin.master_worker.master.worker_main`` by a stub that follows, per start index, one step of a script
@@ -19,7 +19,9 @@ Two workloads, one oracle:
     last step) and runs the real ``run_pynguin_with_master_worker`` with ``maximum_search_time`` in {-1, 0, 1, 2, 3, 5}.
     ALL sequences of length <= 4 over 4 dying and 3 sending steps are enumerated (595), the 340 all-dying ones again
     with "the last fault repeats for ever", all sequences of length <= 2 under every other time value, plus sampled
-    longer sequences over the full alphabet.
+    longer sequences over the full alphabet, plus 95 sequences with a generous search time (60 s: all dying prefixes of
+    length <= 2 before each delivering step, every 8th of length 4 before send-ok) whose success after restarts does not
+    depend on how fast the machine lets a worker die.
 
 Oracle (exactly the clauses of the statement):
 * the command returns: the driver came back before the watchdog (a firing watchdog is re-tried once with a larger
@@ -54,11 +56,12 @@ IN_PROCESS = False
 CHUNK_TIMEOUT = 2400
 RULE = (
     "(a) real master-worker pipelines (fresh interpreter each, 9 SUT modules, 5 algorithms) with the repository crash hook at each of 9 "
-    "phase boundaries x n in {1,2,always} x budget kind {search time 6-10 s, search time 20 s + iteration cap, iterations only}; "
+    "phase boundaries x n in {1,2,always} x budget kind {search time 6-10 s, search time 20-120 s + iteration cap, iterations only}; "
     "(b) the real RunningTask/MasterProcess/PynguinClient with worker_main replaced by a scripted stub: ALL fault sequences of length <= 4 "
     "over {die, die-after-delay, close-pipe, raise} x {send-ok, send-error, send-then-die} under maximum_search_time 5, the all-dying ones "
     "also with the last fault repeating for ever (T=3), all sequences of length <= 2 under T in {-1,0,1,2,3}, sampled longer ones over 16 step "
-    "kinds (SIGKILL, truncated message, real worker_main around a stubbed run_pynguin, hang); oracle = offline checker over the master's "
+    "kinds (SIGKILL, truncated message, real worker_main around a stubbed run_pynguin, hang), 95 sequences of <= 4 deaths before a delivered "
+    "result under maximum_search_time 60 (success after restarts independent of machine load); oracle = offline checker over the master's "
     "event log (monitor on _start_worker/_restart/_adjust_search_time_after_crash/get_result/run_pynguin) plus phases.log/crashes.log resp. "
     "the stub's own log: command returned before the watchdog (re-tried once), every restart has 0 < maximum_search_time < previous and lies "
     "inside the original wall-clock budget, OK only if a worker reached 'done' uncrashed / sent an OK result; distinct = (phase, n, budget, "
@@ -104,6 +107,7 @@ TERMINAL = set(SENDING) | set(EXTRA_SENDING)
 DELIVERS_OK = {"send-ok", "send-die", "real-ok"}
 ALL_STEPS = DYING + SENDING + EXTRA_DYING + EXTRA_SENDING + HANGS
 TIMES = [-1, 0, 1, 2, 3, 5]
+ROBUST_T = 60  # search time of the load-independent success-after-restart cases
 
 
 # =================================================================================================
@@ -111,6 +115,7 @@ TIMES = [-1, 0, 1, 2, 3, 5]
 # =================================================================================================
 def floors(tier):
     k = 1 if tier == "quick" else 5
+    first_ok, robust = guaranteed_ok_delivered(scripted_directed_cases(tier == "quick"))
     classes = {
         # (the restart-dependent floors are low on purpose: on a loaded machine a worker needs longer to die, so fewer
         #  restarts fit into the same wall-clock budget)
@@ -124,7 +129,10 @@ def floors(tier):
         "scripted:all-dying-repeat-forever": 84 if tier == "quick" else 340,
         "scripted:sampled-longer": 40 * k,
         "scripted:restart-rule": 400 if tier == "quick" else 1200,
-        "scripted:ok-delivered": 150,
+        # no higher than what the plan guarantees at any machine load (see scripted_directed_cases): the cases whose first
+        # worker delivers plus three quarters of the generous-search-time ones; the T = 5 sequences add to it on an idle machine
+        "scripted:ok-delivered": first_ok + (3 * robust) // 4,
+        "scripted:robust-ok-after-restart": (3 * (robust - len(DELIVERS_OK))) // 4,
         "scripted:nonok-nothing-delivered": 300,
         "scripted:restarts=4": 20,
         "scripted:hang": 2,
@@ -140,6 +148,7 @@ def floors(tier):
         classes[f"real:{c['phase']}:n{c['n']}:{c['budget_kind']}"] = 1
     for t in TIMES:
         classes[f"scripted:T={t}"] = 30
+    classes[f"scripted:T={ROBUST_T}"] = (3 * robust) // 4
     for s in ALL_STEPS:
         classes[f"scripted:step-reached={s}"] = 2 if s in HANGS else 5
     if tier == "quick":
@@ -167,7 +176,7 @@ def real_directed_cases(quick=False):
                     continue  # quick tier: a Latin square - every (phase, n), every (phase, budget kind) and every (n, budget kind) once
                 budget = dict(BUDGETS[b])
                 if b == "time+iter" and n != 99:
-                    budget["maximum_search_time"] = 45  # the late phases must be reachable with time to spare on a loaded machine
+                    budget["maximum_search_time"] = 120  # far more than the run needs (the iteration cap ends the search): a restart in a late phase must find search time left however loaded the machine is
                 cases.append({"phase": p, "n": n, "budget_kind": b, "budget": budget, "module": "tri",
                               "algorithm": "DYNAMOSA", "seed": 11, "assertion_generation": "NONE", "minimize": False})
     return cases
@@ -240,7 +249,24 @@ def scripted_directed_cases(quick=False):
     for h in HANGS:
         for t in (30, -1):  # 30: the restart that leads to the hang step must fit even on a very loaded machine
             cases.append({"script": ["die0", h] if t > 0 else [h], "then": "send-ok", "T": t, "delay": 0.3, "tag": "hang"})
+    # success after restarts with search time to spare: under T = 5 a sequence of four deaths ends in a delivered result only
+    # if every worker dies within a second of its start (each restart costs at least one whole second), which a loaded
+    # machine does not grant.  With T = 60 the same sequences reach their delivering step at any realistic load, so the
+    # "OK and delivered" side of the oracle and the restart rule over 4 restarts are observed however slow the machine is.
+    for k in range(3):
+        for prefix in itertools.product(DYING, repeat=k):
+            for last in sorted(DELIVERS_OK):
+                cases.append({"script": list(prefix) + [last], "then": "send-ok", "T": ROBUST_T, "delay": 0.3, "tag": "robust"})
+    for prefix in list(itertools.product(DYING, repeat=4))[::8]:
+        cases.append({"script": list(prefix), "then": "send-ok", "T": ROBUST_T, "delay": 0.3, "tag": "robust"})
     return cases
+
+
+def guaranteed_ok_delivered(cases):
+    """Cases of the plan that end in a delivered OK result independently of machine load: the first worker delivers, or the
+    search time is generous (tag robust).  (first-worker cases, robust cases)"""
+    first = sum(1 for c in cases if c["tag"] != "robust" and c["script"][0] in DELIVERS_OK)
+    return first, sum(1 for c in cases if c["tag"] == "robust")
 
 
 def scripted_random_cases(seed, count):
@@ -891,6 +917,8 @@ def judge_scripted(ctx, case, rec):
         cls.append("scripted:sampled-longer")
     if rec.get("rc") == "OK" and delivered_ok:
         cls.append("scripted:ok-delivered")
+        if case["tag"] == "robust" and summ["restarted"]:
+            cls.append("scripted:robust-ok-after-restart")
     if rec.get("rc") != "OK" and not delivered_ok:
         cls.append("scripted:nonok-nothing-delivered")
     for r in summ["refused"]:
